@@ -2,7 +2,7 @@
 import re
 
 from ..mir import Callee, last_seg, loc, op_const, op_int, op_place
-from .common import gates_of_value, returns_variant, err_return_reachable_only
+from .common import gates_of_value, returns_variant, err_return_reachable_only, flat_err_only
 
 EXPLANATION = (
     "Roles are resolved by type: the dispatcher (client function taking &mut TcpStream and returning Result<Address>), the sniffer (its callee that "
@@ -27,6 +27,8 @@ STREAM_CONSUMERS = {"AsyncReadExt::read", "AsyncReadExt::read_exact", "AsyncRead
                     "AsyncReadExt::read_u8", "TcpStream::try_read", "TcpStream::readable"}
 STREAM_WRITERS = {"AsyncWriteExt::write_all", "AsyncWriteExt::write", "AsyncWriteExt::shutdown", "AsyncWriteExt::write_buf", "AsyncWriteExt::flush",
                   "TcpStream::try_write"}
+MOVE_LIKE = ("Clone::clone", "Into::into", "From::from", "Try::branch", "core::mem::replace", "core::mem::take", "Option::take", "Option::unwrap",
+             "Option::expect", "Box::new", "Deref::deref")
 OK_200 = re.compile(r"^HTTP/1\.[01] 200 [^\r\n]*\r\n([^\r\n]+\r\n)*\r\n$")
 
 
@@ -106,11 +108,20 @@ def _field_sources(b, locals_):
 
 
 def _ok_operand_locals(b):
-    """[(block, local)] operands of `_0 = Ok(x)`"""
+    """[(block, local, operand)] of every `Ok(x)` whose value is (or, in a flat body, flows unchanged into) the function's result:
+    an Ok aggregate of the result type that reaches `_0` through moves / awaits"""
     out = []
+    rty = b.local_ty(0)
     for blk in b.rpo():
         for s in b.stmts(blk):
-            if s["k"] == "assign" and s["p"][0] == 0 and not s["p"][1] and s["rv"]["k"] == "agg" and s["rv"].get("variant") == "Ok":
+            if s["k"] == "assign" and not s["p"][1] and s["rv"]["k"] == "agg" and s["rv"].get("variant") == "Ok" and s["rv"].get("def", "").endswith("result::Result"):
+                dst = s["p"][0]
+                if dst != 0:
+                    if b.local_ty(dst) != rty:
+                        continue
+                    fwd, _, _ = b.slice_fwd([dst])
+                    if 0 not in fwd:
+                        continue
                 for o in s["rv"]["ops"]:
                     p = op_place(o)
                     out.append((blk, p[0] if p is not None else None, o))
@@ -146,7 +157,12 @@ def run(ctx):
     if not disp_roots:
         ctx.anchor_lost("H1", "dispatcher: client function taking &mut TcpStream and returning Result<Address>")
         return
-    for root in disp_roots:
+    # helpers with the same signature (an extracted arm) are not dispatchers: a dispatcher's flat view peeks the stream
+    disp = [r for r in disp_roots if any(any(c.name == "TcpStream::peek" for (_, c, _) in prog.flat(b.defp).calls()) for b in prog.family(r.defp))]
+    if not disp:
+        ctx.anchor_lost("H1", "sniffer: code reached from the dispatcher that peeks the stream")
+        return
+    for root in disp:
         _check_dispatcher(ctx, prog, root)
     _check_tables(ctx, prog)
     # H5: segmentation of the SOCKS5 requests — the completeness guard of the command-request decoder is the length predictor; it must
@@ -160,7 +176,7 @@ def run(ctx):
     c04.run(sub)
     n = 0
     for o in sub.obs:
-        if o.rule in ("R4a", "R4b", "R4f") and ("InitialRequestDecoder" in o.key or "CommandRequestDecoder" in o.key) and o.verdict != "reviewed-safe":
+        if o.rule in ("R4a", "R4f") and ("InitialRequestDecoder" in o.key or "CommandRequestDecoder" in o.key):
             parts = o.key.split("|")
             n += 1
             ctx.ob("H5", parts[1], f"{o.rule}:{parts[2]}", o.where, o.ok, o.detail)
@@ -185,32 +201,30 @@ def _workspace_family_of(prog, target):
 
 def _check_dispatcher(ctx, prog, root):
     fam = prog.family(root.defp)
-    # the arm body: the family member that switches on the classification enum
-    sniffers = []
+    # the arm body: the family member whose flat view (helpers and awaited async fns spliced in) peeks the stream
+    arm_body = None
     for b in fam:
-        for (blk, c, t) in b.calls():
-            r = _workspace_family_of(prog, c.target)
-            if r is None or r == root.defp:
-                continue
-            if any(cc.name == "TcpStream::peek" for (_, _, cc, _) in _family_calls(prog, r)):
-                sniffers.append((b, blk, c, t, r))
-    if not sniffers:
-        ctx.anchor_lost("H1", "sniffer: callee of the dispatcher that peeks the stream")
+        fb = prog.flat(b.defp)
+        if any(c.name == "TcpStream::peek" for (_, c, _) in fb.calls()):
+            if arm_body is None or fb.n < arm_body.n:
+                arm_body = fb
+    if arm_body is None:
+        ctx.anchor_lost("H1", "sniffer: code reached from the dispatcher that peeks the stream")
         return
-    arm_body, sn_blk, sn_c, sn_t, sn_root = sniffers[0]
-    sn_bodies = prog.family(sn_root)
-    sn_main = max(sn_bodies, key=lambda x: x.n)
-    # classification enum: Ok payload type of the sniffer
-    enum_path = None
-    m = re.search(r"Result<([^,>]+)", sn_main.local_ty(0))
-    if m:
-        cand = m.group(1).strip()
-        for it in prog.items:
-            if it["k"] == "enum" and (it["path"] == cand or it["path"].endswith("::" + cand) or it["path"].endswith(cand.split("::", 1)[-1])):
-                enum_path = it["path"]
-                enum_it = it
+    # the sniffer is the function the peeks sit in; its flat view is analysed on its own as well
+    peek_fns = {arm_body.origin[blk] for (blk, c, _) in arm_body.calls() if c.name == "TcpStream::peek"}
+    sn_def = sorted(peek_fns)[0]
+    sn_main = prog.flat(sn_def)
+    sn_bodies = [sn_main]
+    # classification enum: an enum with >= 2 variants carrying the Address that is switched on in the arm body
+    enum_path, enum_it = None, None
+    for it in prog.items:
+        if it["k"] != "enum" or sum(1 for v in it["variants"] if any(ADDR in f[1] for f in v["fields"])) < 2:
+            continue
+        if any((l["ty"].get("d") or "") == it["path"] for l in arm_body.locals):
+            enum_path, enum_it = it["path"], it
     if enum_path is None:
-        ctx.anchor_lost("H1", "classification enum returned by the sniffer")
+        ctx.anchor_lost("H1", "classification enum (variants carrying the tunnel address) matched by the dispatcher")
         return
     tunnel_variants = {v["name"] for v in enum_it["variants"] if any(ADDR in f[1] for f in v["fields"])}
     nontunnel_with_payload = {v["name"] for v in enum_it["variants"] if v["fields"] and v["name"] not in tunnel_variants}
@@ -249,22 +263,26 @@ def _check_dispatcher(ctx, prog, root):
     def arm_blocks(v):
         return arm_body.reach_from(arm_entry[v], avoid=other_entries(v))
 
-    # SOCKS5 exchange: workspace callee on a unit-variant arm that builds FramedRead over the stream
+    # SOCKS5 exchange: the function (spliced into a unit-variant arm) that frames the stream with FramedRead
     exch = None
     socks_variant = None
     for v in unit_variants:
         for blk in arm_blocks(v):
             t = arm_body.term(blk)
-            if t and t["k"] == "call":
-                c = Callee(t["f"])
-                r = _workspace_family_of(prog, c.target)
-                if r and any(cc.name == "FramedRead::new" for (_, _, cc, _) in _family_calls(prog, r)):
-                    exch, socks_variant = (blk, c, t, r), v
+            if t and t["k"] == "call" and Callee(t["f"]).name in ("FramedRead::new", "FramedRead::with_capacity"):
+                exch, socks_variant = arm_body.origin[blk], v
     if exch is None:
-        ctx.anchor_lost("H1", "SOCKS5 exchange: callee on a classification arm that frames the stream")
+        ctx.anchor_lost("H1", "SOCKS5 exchange: code on a classification arm that frames the stream")
         return
-    ex_blk, ex_c, ex_t, ex_root = exch
-    ex_main = max(prog.family(ex_root), key=lambda x: x.n)
+    ex_root = prog.body(exch).root
+    ex_main = prog.flat(exch)
+    # the call (or poll) in the arm whose result is the exchange's result: blocks of the exchange inside the arm body
+    ex_blocks = {blk for blk in arm_body.rpo() if arm_body.origin[blk] == exch}
+    ex_ret_locals = set()
+    for blk in ex_blocks:
+        for s_ in arm_body.stmts(blk):
+            if s_["k"] == "assign" and s_["rv"]["k"] == "agg" and s_["rv"].get("variant") == "Ready" and s_["rv"].get("def") == "core::task::poll::Poll":
+                ex_ret_locals.add(s_["p"][0])
 
     okv = _ok_operand_locals(arm_body)
     rv = returns_variant(arm_body)
@@ -276,35 +294,38 @@ def _check_dispatcher(ctx, prog, root):
             continue
         n_ok += 1
         if l is None:
-            ctx.ob("H1", arm_body.defp, "ok-address-provenance", loc(arm_body.sp), False, "the dispatcher returns a constant address")
+            ctx.ob("H1", root.defp, "ok-address-provenance", loc(arm_body.sp), False, "the dispatcher returns a constant address")
             continue
-        seen, calls, consts = arm_body.slice_back([l], stop_call=lambda c: True)
+        is_cls = lambda x: x == cls_local or (arm_body.local_ty_def(x) or "") == enum_path
+        is_req = lambda x: (arm_body.local_ty_def(x) or "").endswith("Socks5CommandRequest") and not arm_body.local_ty(x).startswith(("std::result", "std::option", "std::ops", "std::task"))
+        seen, calls, consts = arm_body.slice_back([l], stop_call=lambda c: c.name not in MOVE_LIKE, stop_local=lambda x: is_cls(x) or is_req(x))
         vnames = set(discr_of)
         pays = {(x, v) for (x, v) in _variant_payload_sources(arm_body, seen)
                 if v in vnames and (x == cls_local or (arm_body.local_ty_def(x) or "") == enum_path)}
         fields = {(x, f) for (x, f) in _field_sources(arm_body, seen) if (arm_body.local_ty_def(x) or "").endswith("Socks5CommandRequest")}
         from_cls = {v for (_, v) in pays}
         from_req = sorted(fields)
-        other_calls = [c.name for (_, c, _) in calls if c.name not in ("Clone::clone", "Into::into", "From::from") and _workspace_family_of(prog, c.target) != ex_root
-                       and c.name not in ("Try::branch", "Future::poll", "IntoFuture::into_future", "Pin::new_unchecked", "core::future::get_context")]
+        other_calls = [c.name for (_, c, _) in calls if c.name not in MOVE_LIKE]
+        built_here = [x for x in seen if any(d[0] == "assign" and d[3]["rv"]["k"] == "agg" and (d[3]["rv"].get("def") or "").endswith(ADDR)
+                                             for d in arm_body.defs().get(x, []))]
         arm = [v for v in discr_of if blk in arm_blocks(v)]
-        if from_cls:
-            ok = from_cls <= tunnel_variants and all(blk in arm_blocks(v) for v in from_cls) and not other_calls
-            why = f"Ok value is the payload of classification variant(s) {sorted(from_cls)} on arm(s) {arm}"
-        elif from_req:
-            # must be the address-typed field of the request produced by the exchange call
+        if from_cls and not from_req:
+            ok = from_cls <= tunnel_variants and all(blk in arm_blocks(v) for v in from_cls) and not other_calls and not built_here
+            why = f"Ok value is the payload of classification variant(s) {sorted(from_cls)} on arm(s) {arm}" + ("" if ok else f" (other sources: {other_calls[:3]}, built here: {bool(built_here)})")
+        elif from_req and not from_cls:
+            # the request must be the item decoded by the exchange's command-request reader; the field must be its address
             reqs = {x for (x, f) in from_req}
             derive_ok = True
             for x in reqs:
                 s2, c2, _ = arm_body.slice_back([x])
-                if not any(_workspace_family_of(prog, c.target) == ex_root for (_, c, _) in c2):
+                if not any(c.name == "StreamExt::next" and "CommandRequest" in " ".join(a.get("s", "") for a in c.args) for (_, c, _) in c2):
                     derive_ok = False
             fld_ok = all(_req_field_is_address(prog, arm_body.local_ty_def(x) or "", f) for (x, f) in from_req)
-            ok = derive_ok and fld_ok and blk in arm_blocks(socks_variant) and not other_calls
-            why = f"Ok value is field {sorted({f for (_, f) in from_req})} of the command request returned by the SOCKS5 exchange"
+            ok = derive_ok and fld_ok and blk in arm_blocks(socks_variant) and not built_here
+            why = f"Ok value is field {sorted({f for (_, f) in from_req})} of the command request decoded by the SOCKS5 exchange" + ("" if ok else f" (from the command-request reader: {derive_ok})")
         else:
-            ok, why = False, f"Ok value derives from neither a classification payload nor the decoded SOCKS5 request (calls: {other_calls[:4]})"
-        ctx.ob("H1", arm_body.defp, "ok-address-provenance", loc(_sp_of(arm_body, blk)), ok, why)
+            ok, why = False, f"Ok value derives from neither a classification payload nor the decoded SOCKS5 request alone (calls: {other_calls[:4]})"
+        ctx.ob("H1", root.defp, "ok-address-provenance", loc(_sp_of(arm_body, blk)), ok, why)
     ctx.floor("H1", "Ok returns of the dispatcher", 3, n_ok)
 
     # ---------------- H2b / H2c / H3a / H4a per arm -----------------------------------------------------
@@ -324,7 +345,7 @@ def _check_dispatcher(ctx, prog, root):
         if v in plain_variants:
             # only calls on the path entry -> Ok matter (drops etc. aside)
             on_path = [(blk, c) for (blk, c, t) in stream_calls if any(arm_body.can_reach(blk, o) for o in oks)]
-            ctx.ob("H2", arm_body.defp, f"{v}:plain-http-untouched", loc(_sp_of(arm_body, arm_entry[v])), not on_path,
+            ctx.ob("H2", root.defp, f"{v}:plain-http-untouched", loc(_sp_of(arm_body, arm_entry[v])), not on_path,
                    "nothing is read from or written to the local stream on the plain-HTTP arm (the request is forwarded untouched)" if not on_path else
                    f"the plain-HTTP arm calls {[c.name for (_, c) in on_path]} on the local stream before returning the address: the request is no longer forwarded untouched")
         if v in connect_variants:
@@ -341,32 +362,35 @@ def _check_dispatcher(ctx, prog, root):
                         strs.append(cc.get("str") or cc.get("bytes") or "")
                 if any(isinstance(s, str) and OK_200.match(s) for s in strs) and all(_dominates_via_success(arm_body, blk, o) for o in oks):
                     good.append(blk)
-            ctx.ob("H2", arm_body.defp, f"{v}:connect-200-reply", loc(arm_body.sp), bool(good) and bool(oks),
+            ctx.ob("H2", root.defp, f"{v}:connect-200-reply", loc(arm_body.sp), bool(good) and bool(oks),
                    "a constant `HTTP/1.x 200` response is written (success edge) before the CONNECT arm returns the address" if good else
                    "the CONNECT arm does not write a well-formed constant `HTTP/1.x 200 ...\\r\\n\\r\\n` response on every path to its Ok")
             # H3a: consuming reads sized by the parser
             reads = [(blk, c, t) for (blk, c, t) in stream_calls if c.name in STREAM_CONSUMERS]
             if not reads:
-                ctx.ob("H3", arm_body.defp, f"{v}:connect-request-consumed", loc(arm_body.sp), False,
+                ctx.ob("H3", root.defp, f"{v}:connect-request-consumed", loc(arm_body.sp), False,
                        "the CONNECT arm never consumes the request it peeked: the request itself would be relayed into the tunnel")
             for (blk, c, t) in reads:
                 ok, why = _read_len_from_parser(arm_body, t, cls_local, v)
-                ctx.ob("H3", arm_body.defp, f"{v}:connect-read-length-from-parser", loc(t["sp"]), ok, why)
+                ctx.ob("H3", root.defp, f"{v}:connect-read-length-from-parser", loc(t["sp"]), ok, why)
     for v in sorted(set(discr_of) - tunnel_variants - {socks_variant}):
         blocks = arm_blocks(v)
         oks = [blk for (blk, l, op) in okv if blk in blocks]
         ok = not oks and err_return_reachable_only(arm_body, arm_entry[v])
-        ctx.ob("H4", arm_body.defp, f"{v}:refused", loc(arm_body.sp), ok,
+        ctx.ob("H4", root.defp, f"{v}:refused", loc(arm_body.sp), ok,
                f"classification {v} reaches Err only" if ok else f"classification {v} (not a tunnel request) can reach an Ok(address) return")
 
     # ---------------- H2a: SOCKS5 reply status on the dispatcher side ---------------------------------------
-    seen, calls, consts = arm_body.slice_back([op_place(a)[0] for a in ex_t["args"] if op_place(a) is not None])
     statuses = set()
-    for l in seen:
-        for d in arm_body.defs().get(l, []):
-            if d[0] == "assign" and d[3]["rv"]["k"] == "agg" and d[3]["rv"].get("ak") == "adt" and "CommandStatus" in (d[3]["rv"].get("adt") or arm_body.local_ty(l)):
-                statuses.add(d[3]["rv"].get("variant"))
-    ctx.ob("H2", arm_body.defp, "socks5-reply-status", loc(ex_t["sp"]), statuses == {"Success"},
+    where = arm_body.sp
+    for blk in arm_blocks(socks_variant):
+        if arm_body.origin[blk] == exch or prog.body(arm_body.origin[blk]).root == ex_root:
+            continue
+        for s_ in arm_body.stmts(blk):
+            if s_["k"] == "assign" and s_["rv"]["k"] == "agg" and s_["rv"].get("ak") == "adt" and (s_["rv"].get("def") or "").endswith("Socks5CommandStatus"):
+                statuses.add(s_["rv"].get("variant"))
+                where = s_.get("sp") or where
+    ctx.ob("H2", root.defp, "socks5-reply-status", loc(where), statuses == {"Success"},
            f"the SOCKS5 reply handed to the exchange is built with status {sorted(statuses)}" + ("" if statuses == {"Success"} else " (expected exactly Success)"))
 
     _check_exchange(ctx, prog, ex_main)
@@ -420,21 +444,24 @@ def _read_len_from_parser(b, t, cls_local, variant):
 
 
 def _extractor(ctx, prog, sn_bodies, enum_path):
-    short = enum_path.split("::")[-1]
+    """the function in which the request method is compared with "CONNECT" (found inside the sniffer's flat view); its own flat view is returned"""
     cands = []
     for b in sn_bodies:
         for (blk, c, t) in b.calls():
-            eb = prog.body(c.target)
-            if eb is None or eb.kind != "Fn":
+            if c.name != "PartialEq::eq":
                 continue
-            args = [eb.local_ty(i) for i in range(1, eb.argc + 1)]
-            if sum(1 for a in args if a.replace("mut ", "") == "&str") >= 2 and short in eb.local_ty(0):
-                cands.append(eb)
-    ctx.floor("H1", "authority extractor (fn(&str, &str) -> Result<classification>)", 1, len({e.defp for e in cands}))
+            lits = []
+            for a in t["args"]:
+                p = op_place(a)
+                if p is not None:
+                    lits += _const_strs(b, [p[0]])
+            if "CONNECT" in lits:
+                cands.append(b.origin[blk] if getattr(b, "is_flat", False) else b.defp)
+    ctx.floor("H1", "authority extractor (compares the method with CONNECT)", 1, len(set(cands)))
     if not cands:
-        ctx.anchor_lost("H1", "authority extractor called by the sniffer")
+        ctx.anchor_lost("H1", "authority extractor: comparison of the method with \"CONNECT\" reached from the sniffer")
         return None
-    return cands[0]
+    return prog.flat(prog.body(cands[0]).root if prog.body(cands[0]).kind in ("Fn", "AssocFn") else cands[0])
 
 
 def _check_extractor(ctx, prog, eb, enum_path, tunnel_variants):
@@ -575,24 +602,17 @@ def _check_exchange(ctx, prog, ex):
         if p is None:
             return "?"
         seen, cs, _ = ex.slice_back([p[0]])
+        aggs = {}
+        for l in seen:
+            for d in ex.defs().get(l, []):
+                if d[0] == "assign" and d[3]["rv"]["k"] == "agg" and d[3]["rv"].get("ak") == "adt":
+                    aggs.setdefault(last_seg(d[3]["rv"].get("def") or ""), set()).add(d[3]["rv"].get("variant"))
         names = [c.name for (_, c, _) in cs]
-        if any(n == "Socks5InitialResponse::new" for n in names):
-            # which auth method
-            meths = set()
-            for l in seen:
-                for d in ex.defs().get(l, []):
-                    if d[0] == "assign" and d[3]["rv"]["k"] == "agg" and d[3]["rv"].get("ak") == "adt" and "AuthMethod" in (d[3]["rv"].get("adt") or ex.local_ty(l)):
-                        meths.add(d[3]["rv"].get("variant"))
-            return "method-selection:" + ",".join(sorted(m or "?" for m in meths))
-        if any(n == "Socks5CommandResponse::new" for n in names):
-            sts = set()
-            for l in seen:
-                for d in ex.defs().get(l, []):
-                    if d[0] == "assign" and d[3]["rv"]["k"] == "agg" and d[3]["rv"].get("ak") == "adt" and "CommandStatus" in (d[3]["rv"].get("adt") or ex.local_ty(l)):
-                        sts.add(d[3]["rv"].get("variant"))
-            return "command-reply:" + ",".join(sorted(s or "?" for s in sts))
-        # the caller's reply parameter
-        if any("Socks5CommandResponse" in ex.local_ty(l) and ex.local_name(l) for l in seen):
+        if "Socks5InitialResponse" in aggs or any(n == "Socks5InitialResponse::new" for n in names):
+            return "method-selection:" + ",".join(sorted(m or "?" for m in aggs.get("Socks5AuthMethod", {"?"})))
+        if "Socks5CommandResponse" in aggs or any(n == "Socks5CommandResponse::new" for n in names):
+            return "command-reply:" + ",".join(sorted(x or "?" for x in aggs.get("Socks5CommandStatus", {"?"})))
+        if any("Socks5CommandResponse" in ex.local_ty(l) and 1 <= l <= len(ex.locals) and ex.local_name(l) for l in seen):
             return "command-reply:caller"
         return "?"
 
@@ -645,7 +665,7 @@ def _check_exchange(ctx, prog, ex):
             ctx.anchor_lost("H4", f"{dec}::decode")
             continue
         d = ds[0]
-        ok, why = _version_checked(prog, d)
+        ok, why = _version_checked(prog, prog.flat(d.defp))
         ctx.ob("H4", d.defp, "version-byte-checked", loc(d.sp), ok, why)
 
 
@@ -682,7 +702,7 @@ def _command_examined(ex, cmd_reads, ok_blk):
 
 
 def _version_checked(prog, d):
-    for fam in prog.family(d.root):
+    for fam in [d]:
         for blk in fam.rpo():
             t = fam.term(blk)
             if not t or t["k"] != "switch":
@@ -703,7 +723,7 @@ def _version_checked(prog, d):
                             reads += [c.name for (_, c, _) in cs if c.method == "get_u8"]
                     if is5 and reads:
                         bad = t["otherwise"] if df[3]["rv"]["op"] == "Ne" else [tg for (v, tg) in t["arms"] if v == 0][0]
-                        if err_return_reachable_only(fam, bad):
+                        if flat_err_only(prog, fam, bad):
                             return True, "the version byte read from the wire is compared with the SOCKS5 constant; mismatch returns Err"
     return False, "no comparison of the version byte with the SOCKS5 constant whose mismatch returns Err"
 
@@ -718,7 +738,7 @@ def _check_sniffer(ctx, prog, sn, enum_path, tunnel_variants, discr_of):
     cons = []
     for blk in sn.rpo():
         for s in sn.stmts(blk):
-            if s["k"] == "assign" and s["rv"]["k"] == "agg" and s["rv"].get("ak") == "adt" and short in (s["rv"].get("adt") or sn.local_ty(s["p"][0])) \
+            if s["k"] == "assign" and s["rv"]["k"] == "agg" and s["rv"].get("ak") == "adt" and short in (s["rv"].get("def") or sn.local_ty(s["p"][0])) \
                     and short in sn.local_ty(s["p"][0]):
                 cons.append((blk, s["rv"].get("variant")))
     ext_calls = [(blk, c, t) for (blk, c, t) in calls if prog.body(c.target) is not None and short in prog.body(c.target).local_ty(0)]
@@ -790,21 +810,31 @@ def _check_sniffer(ctx, prog, sn, enum_path, tunnel_variants, discr_of):
                    "an incomplete request (Status::Partial) leads back to another peek before anything is classified or answered" if ok2 else
                    ("no switch on the parser's Status (Complete vs Partial) was found" if not found else
                     f"an incomplete request (Status::Partial) can reach {sorted(set(bad))} without another peek"))
-    # H6: the SOCKS5 decision is taken on the first peeked byte through SocksVersion::from
-    frm = [(blk, c, t) for (blk, c, t) in calls if c.name == "From::from" and "SocksVersion" in c.target or "socks::" in c.target and c.method == "from"]
+    # H6: the SOCKS5 decision is taken on a byte of the peeked buffer (through SocksVersion::from)
     ok = False
-    for (blk, c, t) in frm:
-        seen, cs, _ = sn.slice_back([op_place(a)[0] for a in t["args"] if op_place(a) is not None])
-        idx0 = False
+    vers = [i for i, l in enumerate(sn.locals) if (l["ty"].get("d") or "").endswith("socks::SocksVersion")]
+    peek_bufs = set()
+    for (pb, _, t) in peeks:
+        for a in t["args"][1:]:
+            pp = op_place(a)
+            if pp is not None:
+                sb, _, _ = sn.slice_back([pp[0]])
+                peek_bufs |= {x for x in sb if re.match(r"^\[u8; \d+\]$", sn.local_ty(x))}
+    conv_args = []
+    for (blk, c, t) in list(sn.calls()) + list(sn.inlined_calls()):
+        if c.method == "from" and c.trait and last_seg(c.trait) == "From" and (c.self_def or "").endswith("socks::SocksVersion"):
+            conv_args += [op_place(a)[0] for a in t["args"] if op_place(a) is not None]
+    if vers and conv_args:
+        seen, cs, _ = sn.slice_back(conv_args)
+        idx = False
         for l in seen:
             for d in sn.defs().get(l, []):
                 if d[0] == "assign":
                     for o in sn.operands_of_rvalue(d[3]["rv"]):
                         p = op_place(o)
-                        if p and any(e[0] in ("index", "const_index") for e in p[1]):
-                            idx0 = True
-        if idx0 and any(sn.dominates(pb, blk) for (pb, _, _) in peeks):
-            ok = True
+                        if p and p[0] in peek_bufs and any(e[0] in ("index", "cidx") for e in p[1]):
+                            idx = True
+        ok = idx
     ctx.ob("H6", sn.defp, "socks5-decided-on-first-peeked-byte", loc(sn.sp), ok,
            "the SOCKS version is computed from a byte of the peeked buffer after the first peek" if ok else "the SOCKS5 decision does not derive from the peeked first byte")
 
